@@ -134,3 +134,56 @@ func VerifC06_CFListDec(kind int) {
 	}
 	verifReach("done")
 }
+
+// Decode - modify - encode: the FOptsLen nibble of FCtrl is the number of FOpts bytes that follow, also for a frame
+// value that came out of the decoder and whose FOpts were then changed by the application (hidden decoder state in
+// FCtrl must not reach the wire). mode 0: FOpts removed, 1: replaced by one LinkCheckReq / LinkCheckAns-free CID
+// (1 byte), 2: one more 1-byte command appended.
+func VerifC06_DecodeModifyEncode(L, mode int) {
+	in := verifNondetBytes("frame", L)
+	mt := in[0] >> 5
+	verifAssume(in[0]&0x1c == 0)
+	verifAssume(mt >= 2 && mt <= 5) // data frames
+	var p PHYPayload
+	if p.UnmarshalBinary(verifCopy(in)) != nil {
+		verifReach("rejected")
+		return
+	}
+	mp, ok := p.MACPayload.(*MACPayload)
+	verifAssert(ok, "a data frame decodes to a *MACPayload")
+	oldN := int(in[5] & 0x0f)
+	newN := 0
+	switch mode {
+	case 0:
+		mp.FHDR.FOpts = nil
+	case 1:
+		mp.FHDR.FOpts = []Payload{&DataPayload{Bytes: []byte{byte(DevStatusReq)}}}
+		newN = 1
+	case 2:
+		if oldN >= 15 {
+			verifReach("full")
+			return
+		}
+		mp.FHDR.FOpts = append(mp.FHDR.FOpts, &DataPayload{Bytes: []byte{byte(DevStatusReq)}})
+		newN = oldN + 1
+	}
+	if newN > 0 && mp.FPort != nil && *mp.FPort == 0 {
+		verifReach("fport0-with-fopts") // refused by the encoder: FOpts and FPort 0 exclude one another
+		return
+	}
+	out, err := p.MarshalBinary()
+	verifAssert(err == nil, "a decoded data frame whose FOpts were changed still encodes")
+	if err != nil {
+		return
+	}
+	verifAssert(len(out) == L-oldN+newN, "encoded length follows the new FOpts length")
+	verifAssert(int(out[5]&0x0f) == newN, "FOptsLen nibble of FCtrl == number of FOpts bytes that follow")
+	verifAssert(out[5]&0xf0 == in[5]&0xf0, "the flag bits of FCtrl are kept")
+	for i := 0; i < 5; i++ {
+		verifAssert(out[i] == in[i], "MHDR and DevAddr are kept")
+	}
+	verifAssert(out[6] == in[6] && out[7] == in[7], "FCnt is kept")
+	// what follows FOpts (FPort, FRMPayload, MIC) is kept
+	verifAssert(verifBytesEq(out[8+newN:], in[8+oldN:]), "FPort, FRMPayload and MIC are kept")
+	verifReach("done")
+}
